@@ -20,6 +20,15 @@ CHECKS = {
                      "regularisation), L H L' = AQA', projector diagonal in [0,1], redundancy sum; at network level the XML cov-mat and the standard "
                      "deviations of adjusted observations of levelling networks, and the SetCovBand law on the repository inputs.",
                 note="trusted: as C01; XML cofactors printed with 8 significant digits (checked to 5e-6)", ref="8/C03"),
+    "C04": dict(cat="model_checking", technique="TLC exhaustive model checking of refinement models + history replay vs fresh object + trace validation",
+                text="EnvelopeModel, FullSolverModel (chol/gso/svd) and MoveToFront are finite refinement models of the solver classes with ghost tags "
+                     "saying for which input/regularisation every stored artefact was computed; TLC explores every reachable state (all call histories of "
+                     "any length) and checks that whatever is served is current. The models are bound to the code in both directions: every call of "
+                     "TLC-generated API histories (exhaustive up to length 3, random walks of length 9, from SolverAPI.tla) is replayed on the real "
+                     "objects and compared with a fresh object (the property's own oracle, plain and ASan/UBSan builds), and the private state logged "
+                     "after every call is validated as a behaviour of the models by TLC; every MoveToFront transition is replayed on the template.",
+                note="trusted: the abstraction (ghost tags instead of numbers), sanitizers; Adj facade and LocalNetwork object are not yet modelled "
+                     "(network level is covered relationally by other properties)", ref="8/C04"),
 }
 
 NOT_APPLICABLE = []
